@@ -274,6 +274,32 @@ def eig(M):
     return vals, None
 
 
+def cholesky(S):
+    """Closed-form lower Cholesky factor (n <= 3) with sqrt as the engine's UF (axioms: sqrt(a)^2 = a, >= 0 for a >= 0)."""
+    if not has_sym(S):
+        return _np.linalg.cholesky(_np.array(S, dtype=float))
+    S = _obj(S)
+    n = S.shape[0]
+    if n > 3:
+        raise core.HarnessError("closed-form Cholesky only for n <= 3")
+    L = zeros((n, n))
+
+    def sq(v):
+        return v.sqrt() if isinstance(v, SymReal) else _np.sqrt(float(v))
+
+    for j in range(n):
+        acc = S[j, j]
+        for k in range(j):
+            acc = acc - L[j, k] * L[j, k]
+        L[j, j] = sq(acc)
+        for i in range(j + 1, n):
+            acc = S[i, j]
+            for k in range(j):
+                acc = acc - L[i, k] * L[j, k]
+            L[i, j] = acc / L[j, j]
+    return L
+
+
 class _Linalg(types.ModuleType):
     def __getattr__(self, name):
         return getattr(_np.linalg, name)
@@ -282,6 +308,7 @@ class _Linalg(types.ModuleType):
 linalg = _Linalg("np_shim.linalg")
 linalg.inv = inv
 linalg.eig = eig
+linalg.cholesky = cholesky
 
 
 class _Shim(types.ModuleType):
@@ -307,6 +334,68 @@ np_shim.amax = max_
 np_shim.linalg = linalg
 for _n in ("sin", "cos", "tan", "exp", "log", "arcsin", "arccos", "arctan", "sinh", "cosh", "tanh"):
     setattr(np_shim, _n, _ufunc1(_n))
+
+
+# ----------------------------------------------------------------------------- math functions imported by name
+
+
+def _sym_isclose(a, b, *, rel_tol=1e-09, abs_tol=0.0):
+    import math as _m
+
+    if not (has_sym(a) or has_sym(b) or has_sym(rel_tol) or has_sym(abs_tol)):
+        return _m.isclose(a, b, rel_tol=rel_tol, abs_tol=abs_tol)
+    ta, tb = lift(a), lift(b)
+    d = ta - tb
+    ad = z3.If(d >= 0, d, -d)
+    aa = z3.If(ta >= 0, ta, -ta)
+    ab = z3.If(tb >= 0, tb, -tb)
+    big = z3.If(aa >= ab, aa, ab)
+    rel = lift(rel_tol) * big
+    tol = z3.If(rel >= lift(abs_tol), rel, lift(abs_tol))
+    return SymBool(ad <= tol)
+
+
+def _sym_fabs(a):
+    import math as _m
+
+    return abs(a) if has_sym(a) else _m.fabs(a)
+
+
+def _sym_sqrt(a):
+    import math as _m
+
+    return a.sqrt() if isinstance(a, SymReal) else _m.sqrt(a)
+
+
+def _sym_copysign(a, b):
+    import math as _m
+
+    if not (has_sym(a) or has_sym(b)):
+        return _m.copysign(a, b)
+    ta, tb = lift(a), lift(b)
+    aa = z3.If(ta >= 0, ta, -ta)
+    return SymReal(z3.If(tb >= 0, aa, -aa))
+
+
+SYM_MATH = {"isclose": _sym_isclose, "fabs": _sym_fabs, "sqrt": _sym_sqrt, "copysign": _sym_copysign}
+
+
+@contextmanager
+def math_names_installed(module):
+    """Replace functions that `module` imported *by name* from math (e.g. `from math import isclose`) with
+    symbolic-aware versions for the duration of a harness (floor/ceil/trunc dispatch to __floor__ etc. natively)."""
+    import math as _m
+
+    saved = []
+    for name, val in list(vars(module).items()):
+        if name in SYM_MATH and val is getattr(_m, name, None):
+            saved.append((name, val))
+            setattr(module, name, SYM_MATH[name])
+    try:
+        yield
+    finally:
+        for name, val in saved:
+            setattr(module, name, val)
 
 
 @contextmanager
